@@ -8,6 +8,7 @@
 #include <curve_extras.h>
 #include <id2iso.h>
 #include <tools.h>
+#include <verif_sign_hooks.h>
 
 void
 swap(ibz_t *a, ibz_t *b, ibz_vec_4_t *va, ibz_vec_4_t *vb)
@@ -141,6 +142,10 @@ fixed_degree_isogeny(theta_chain_t *isog,
         found = represent_integer_non_diag(&theta, &tmp, &QUATALG_PINFTY);
         count++;
     }
+#ifdef SQISIGN_SQISIGN2D_WEST_AC24_VERIF
+    if (verif_h2_fail("fixed_degree_isogeny"))
+        found = 0; /* H2 failure injection */
+#endif
 
     if (!found) {
         printf("represent integer failed for a target of size %d for a u of size %d with length = "
@@ -647,6 +652,10 @@ find_uv(ibz_t *u,
         ibz_vec_4_finalize(&small_vecs[i]);
     }
 
+#ifdef SQISIGN_SQISIGN2D_WEST_AC24_VERIF
+    if (verif_h2_fail("find_uv"))
+        found = 0; /* H2 failure injection */
+#endif
     return found;
 }
 
